@@ -1,17 +1,11 @@
-// Copyright 2013 The Go Authors. All rights reserved.
-// Use of this source code is governed by a BSD-style
-// license that can be found in the LICENSE file.
+package vm
 
-package interp
-
-// Custom hashtable atop map.
-// For use when the key's equivalence relation is not consistent with ==.
-
-// The Go specification doesn't address the atomicity of map operations.
-// The FAQ states that an implementation is permitted to crash on
-// concurrent map access.
+// omap: insertion-ordered map used for every Go map in the VM, so that
+// iteration is deterministic across re-executions of a path. Keys that contain
+// symbolic parts are resolved by solver-decided equality (association list).
 
 import (
+	"fmt"
 	"go/types"
 )
 
@@ -20,102 +14,181 @@ type hashable interface {
 	eq(t types.Type, x any) bool
 }
 
-type entry struct {
-	key   hashable
-	value value
-	next  *entry
+type oentry struct {
+	k, v value
+	live bool
 }
 
-// A hashtable atop the built-in map.  Since each bucket contains
-// exactly one hash value, there's no need to perform hash-equality
-// tests when walking the linked list.  Rehashing is done by the
-// underlying map.
-type hashmap struct {
-	keyType types.Type
-	table   map[int]*entry
-	length  int // number of entries in map
+type omap struct {
+	kt      types.Type
+	simple  bool // key is basic/pointer/chan: host-hashable
+	ents    []oentry
+	idx     map[value]int // simple keys
+	hidx    map[int][]int // complex keys: hash -> entry indexes
+	n       int
+	symKeys int // number of live entries whose key contains symbolic parts
 }
 
-// makeMap returns an empty initialized map of key type kt,
-// preallocating space for reserve elements.
 func makeMap(kt types.Type, reserve int64) value {
-	if usesBuiltinMap(kt) {
-		return make(map[value]value, reserve)
+	m := &omap{kt: kt, simple: usesBuiltinMap(kt)}
+	if m.simple {
+		m.idx = make(map[value]int)
+	} else {
+		m.hidx = make(map[int][]int)
 	}
-	return &hashmap{keyType: kt, table: make(map[int]*entry, reserve)}
+	return m
 }
 
-// delete removes the association for key k, if any.
-func (m *hashmap) delete(k hashable) {
-	if m != nil {
-		hash := k.hash(m.keyType)
-		head := m.table[hash]
-		if head != nil {
-			if k.eq(m.keyType, head.key) {
-				m.table[hash] = head.next
-				m.length--
-				return
+func (m *omap) len() int {
+	if m == nil {
+		return 0
+	}
+	return m.n
+}
+
+func (m *omap) clear() {
+	m.ents = nil
+	m.n = 0
+	m.symKeys = 0
+	if m.simple {
+		m.idx = make(map[value]int)
+	} else {
+		m.hidx = make(map[int][]int)
+	}
+}
+
+// find returns the index of the entry with key k, or -1.
+func (m *omap) find(mc *machine, k value) int {
+	if m == nil {
+		return -1
+	}
+	ksym := hasSymDeep(k)
+	if ksym || m.symKeys > 0 {
+		// association list with solver-decided equality
+		for i := range m.ents {
+			e := &m.ents[i]
+			if !e.live {
+				continue
 			}
-			prev := head
-			for e := head.next; e != nil; e = e.next {
-				if k.eq(m.keyType, e.key) {
-					prev.next = e.next
-					m.length--
-					return
+			if !ksym && !hasSymDeep(e.k) {
+				if m.concEq(k, e.k) {
+					return i
 				}
-				prev = e
+				continue
+			}
+			if mc.branch(mc.eqTerm(m.kt, k, e.k)) {
+				return i
 			}
 		}
+		return -1
 	}
-}
-
-// lookup returns the value associated with key k, if present, or
-// value(nil) otherwise.
-func (m *hashmap) lookup(k hashable) value {
-	if m != nil {
-		hash := k.hash(m.keyType)
-		for e := m.table[hash]; e != nil; e = e.next {
-			if k.eq(m.keyType, e.key) {
-				return e.value
-			}
+	if m.simple {
+		if i, ok := m.idx[k]; ok {
+			return i
+		}
+		return -1
+	}
+	h := hash(m.kt, m.kt, k)
+	for _, i := range m.hidx[h] {
+		if m.ents[i].live && equals(m.kt, k, m.ents[i].k) {
+			return i
 		}
 	}
-	return nil
+	return -1
 }
 
-// insert updates the map to associate key k with value v.  If there
-// was already an association for an eq() (though not necessarily ==)
-// k, the previous key remains in the map and its associated value is
-// updated.
-func (m *hashmap) insert(k hashable, v value) {
-	hash := k.hash(m.keyType)
-	head := m.table[hash]
-	for e := head; e != nil; e = e.next {
-		if k.eq(m.keyType, e.key) {
-			e.value = v
-			return
+func (m *omap) concEq(a, b value) bool {
+	return equals(m.kt, a, b)
+}
+
+func (m *omap) get(mc *machine, k value) (value, bool) {
+	i := m.find(mc, k)
+	if i < 0 {
+		return nil, false
+	}
+	return m.ents[i].v, true
+}
+
+func (m *omap) set(mc *machine, k, v value) {
+	if i := m.find(mc, k); i >= 0 {
+		m.ents[i].v = v
+		return
+	}
+	m.ents = append(m.ents, oentry{k, v, true})
+	i := len(m.ents) - 1
+	m.n++
+	if hasSymDeep(k) {
+		m.symKeys++
+		return
+	}
+	if m.simple {
+		m.idx[k] = i
+	} else {
+		h := hash(m.kt, m.kt, k)
+		m.hidx[h] = append(m.hidx[h], i)
+	}
+}
+
+func (m *omap) delete(mc *machine, k value) {
+	i := m.find(mc, k)
+	if i < 0 {
+		return
+	}
+	e := &m.ents[i]
+	e.live = false
+	m.n--
+	if hasSymDeep(e.k) {
+		m.symKeys--
+	} else if m.simple {
+		delete(m.idx, e.k)
+	}
+	e.k, e.v = nil, nil
+}
+
+type omapIter struct {
+	m     *omap
+	order []int
+	pos   int
+}
+
+// iter snapshots the live entries. If the machine asks for symbolic map order
+// the order is a symbolic permutation choice (small maps only).
+func (m *omap) iter(mc *machine) iter {
+	it := &omapIter{m: m}
+	if m == nil {
+		return it
+	}
+	for i := range m.ents {
+		if m.ents[i].live {
+			it.order = append(it.order, i)
 		}
 	}
-	m.table[hash] = &entry{
-		key:   k,
-		value: v,
-		next:  head,
+	if mc.symMapOrder && len(it.order) > 1 && len(it.order) <= 3 {
+		// choose a permutation
+		n := len(it.order)
+		perm := make([]int, 0, n)
+		rest := append([]int(nil), it.order...)
+		for len(rest) > 0 {
+			k := mc.choose(len(rest), "map iteration order")
+			mc.recordChoice("maporder", "choice", uint64(k))
+			perm = append(perm, rest[k])
+			rest = append(rest[:k], rest[k+1:]...)
+		}
+		it.order = perm
 	}
-	m.length++
+	return it
 }
 
-// len returns the number of key/value associations in the map.
-func (m *hashmap) len() int {
-	if m != nil {
-		return m.length
+func (it *omapIter) next() tuple {
+	for it.pos < len(it.order) {
+		i := it.order[it.pos]
+		it.pos++
+		if i < len(it.m.ents) && it.m.ents[i].live {
+			e := it.m.ents[i]
+			return tuple{true, e.k, e.v}
+		}
 	}
-	return 0
+	return tuple{false, nil, nil}
 }
 
-// entries returns a rangeable map of entries.
-func (m *hashmap) entries() map[int]*entry {
-	if m != nil {
-		return m.table
-	}
-	return nil
-}
+func (m *omap) String() string { return fmt.Sprintf("omap(%d)", m.len()) }
